@@ -11,6 +11,7 @@ import EaselModel.Vec.CompareReal
 import EaselModel.Vec.GenFloat
 import EaselModel.Vec.GenReal
 import EaselModel.Vec.GenMix
+import EaselModel.Vec.GenRet
 /-! # C20 — vector and SIMD numeric kernels compute their definition for every input
 
 Property theorems only (proofs are glue on the lemmas of `Simd/Lemmas.lean`, `Simd/LogExpLemmas.lean`, `Vec/Real.lean`, `Vec/XReal.lean`).
@@ -670,6 +671,34 @@ theorem gen_FLogNorm_spec (v : Array XR) (hv : ∀ x ∈ v.toList, x.isLogP) (hf
     (esl_vec_FLogNorm v v.size).map Array.toList = some ((softmax v.toList).map XR.fin) ∧ (softmax v.toList).sum = 1 := by
   rw [Vec.gen_FLogNorm xr_uniform_F xr_window_F v]; exact Vec.logNorm_spec v.toList hv hfin
 end atWinF
+/-- `esl_vec_{D,F}RelEntropy` as regenerated (a loop with an early `return eslINFINITY`): the hand model's `relEntropyGo` for every
+    element type — `eslINFINITY` as soon as a cell with `p[i] > 0` meets `q[i] == 0`, otherwise `kl += p[i] * log2(p[i]/q[i])` over the
+    cells with `p[i] > 0`; never a fault on vectors of equal length.  `hk` spells the C expression the hand model abbreviates. -/
+theorem gen_RelEntropy {α : Type} [VInf α] (hk : ∀ kl x y : α, VNum.klAdd kl x y = kl + x * VNum.log2 (x / y)) (p q : Array α) (h : p.size = q.size) :
+    esl_vec_DRelEntropy p q p.size = some ((relEntropyGo p.toList q.toList (VNum.ofNat 0)).getD VInf.inf) ∧
+    esl_vec_FRelEntropy p q p.size = some ((relEntropyGo p.toList q.toList (VNum.ofNat 0)).getD VInf.inf) :=
+  ⟨Vec.gen_DRelEntropy hk p q h, Vec.gen_FRelEntropy hk p q h⟩
+/-- the reals have no infinity: read `eslINFINITY` as an arbitrary token `I` (the other operations are the real ones).  Then the
+    regenerated routines return `I` exactly when some `p[i] > 0` has `q[i] = 0`, and `Σ_{p[i]>0} p[i] log2(p[i]/q[i])` otherwise. -/
+noncomputable def realWithInf (I : ℝ) : VInf ℝ :=
+  { (inferInstance : VNum ℝ) with
+    inf := I, neg := fun x => -x, exp := Real.exp, log := Real.log, exp2 := fun x => (2 : ℝ) ^ x, inWindow := fun m x => decide (m - 500 < x) }
+theorem gen_RelEntropy_real (I : ℝ) (p q : Array ℝ) (h : p.size = q.size) :
+    @esl_vec_DRelEntropy ℝ _ (realWithInf I) p q p.size =
+      some (if (∃ ab ∈ List.zip p.toList q.toList, 0 < ab.1 ∧ ab.2 = 0) then I else (klTerms p.toList q.toList).sum) ∧
+    @esl_vec_FRelEntropy ℝ _ (realWithInf I) ℝ (VMix.same ℝ) _ p q p.size =
+      some (if (∃ ab ∈ List.zip p.toList q.toList, 0 < ab.1 ∧ ab.2 = 0) then I else (klTerms p.toList q.toList).sum) := by
+  have hk : ∀ kl x y : ℝ, @VNum.klAdd ℝ (realWithInf I).toVNum kl x y = kl + x * @VNum.log2 ℝ (realWithInf I).toVNum (x / y) := fun _ _ _ => rfl
+  have e1 := @Vec.gen_DRelEntropy ℝ (realWithInf I) hk p q h
+  have e2 := @Vec.gen_FRelEntropy ℝ (realWithInf I) hk p q h
+  have sp := Vec.relEntropyGo_spec p.toList q.toList 0
+  have z : (@VNum.ofNat ℝ (realWithInf I).toVNum 0) = (0 : ℝ) := by show ((0 : ℕ) : ℝ) = 0; simp
+  refine ⟨e1.trans ?_, e2.trans ?_⟩
+  · rw [z]; show some ((relEntropyGo p.toList q.toList 0).getD I) = _
+    rw [sp]; split <;> simp
+  · rw [z]; show some ((relEntropyGo p.toList q.toList 0).getD I) = _
+    rw [sp]; split <;> simp
+example : (#[0.5, 0.5] : Array ℝ).size = (#[0.25, 0.75] : Array ℝ).size := rfl
 example : (#[1, 2, 3] : Array ℝ).toList.sum ≠ 0 := by norm_num
 example : VNum.eq (Vec.sum [(1 : ℝ), 2]) (VNum.ofNat 0 : ℝ) = false := by
   rw [Vec.sum_eq_real]; show decide ((1 : ℝ) + (2 + 0) = ((0 : ℕ) : ℝ)) = false; norm_num
